@@ -156,6 +156,15 @@ impl Alphabet {
                 let rc = self.count_exact(n - 1 - i, memo);
                 let left = self.unrank_exact(r / rc, i, memo);
                 let right = self.unrank_exact(r % rc, n - 1 - i, memo);
+                // side-effect blocks as binary constructs (body, value): the value must be a leaf
+                if op == "BlockBefore" || op == "BlockAfter" {
+                    let block = Box::new(Sx::node("SideEffect", None, Some(left)));
+                    return match right {
+                        Sx::Leaf(d, t) if op == "BlockBefore" => Sx::ValNode(d, t, Some(block), None),
+                        Sx::Leaf(d, t) => Sx::ValNode(d, t, None, Some(block)),
+                        _ => Sx::Broken("block-needs-a-plain-value".into()),
+                    };
+                }
                 return Sx::node(op, Some(left), Some(right));
             }
             r -= block;
@@ -297,8 +306,13 @@ fn gen_ast(t: &mut Tape, depth: u32, max_depth: u32, tail: bool) -> Sx {
             // side effect attached to a literal
             let (d, x) = LEAVES_RICH[t.choose(LEAVES_RICH.len())];
             let body = Sx::node("SideEffect", None, Some(gen_ast(t, depth + 1, max_depth, false)));
-            // a block before a value would attach to the value before it when one precedes: only generate the trailing form
-            Sx::ValNode(d.to_string(), x.to_string(), None, Some(Box::new(body)))
+            // trailing form mostly; the leading form (`[ body ] value`) too: where a value precedes it the parsers attach the
+            // block to that value instead, which the reference parser reads the same way from the printed text
+            if t.chance(90) {
+                Sx::ValNode(d.to_string(), x.to_string(), Some(Box::new(body)), None)
+            } else {
+                Sx::ValNode(d.to_string(), x.to_string(), None, Some(Box::new(body)))
+            }
         }
         _ => {
             // bounded reapply loop: { $ < N ?> ^~ $ + 1 |> <result> } <~ 0
